@@ -80,6 +80,8 @@ def edit_torrent(metafile: str, args: dict) -> dict:
         The edited and nested Meta and info dictionaries.
     """
     logger.debug("editing torrent file %s", metafile)
+    # the caller keeps its request: empty fields are dropped from a copy
+    args = dict(args)
     meta = pyben.load(metafile)
     info = meta["info"]
     keys = list(info)
